@@ -23,7 +23,7 @@ GROUP = "bpe"
 REQ = "From RV Require Import Prelude.\nFrom Bpe Require Import ModelBpe ModelC28.\nOpen Scope N_scope."
 THEOREMS = ["C28_merge_pass_eq", "C28_bpe_merge_eq_reference", "C28_bpe_merge_terminates",
             "C28_reference_is_fixpoint", "C28_build_merge_map_rank", "C28_encode_piece_eq_reference_str",
-            "C28_default_vocab_wellformed", "C28_nonvacuous"]
+            "C28_default_vocab_wellformed", "C28_oracle_sound", "C28_nonvacuous"]
 
 
 def main(ctx):
